@@ -264,6 +264,31 @@ theorem ClosedVR.storeAll {vecElems : H → VCell → Option (List VCell)} {base
   | _, _, .cons a t => .cons (ClosedVR.store hp a) (ClosedVR.storeAll hp t)
 end
 
+mutual
+/-- the closure is still there in a later heap and store that keep the base relation, what `heap.get` shows of
+    pairs, the vector payloads, and the pair / vector cells of the store -/
+theorem ClosedVR.transport {vecElems : H → VCell → Option (List VCell)} {base : H → VCell → Val → Prop} {h h' : H}
+    {S S' : Array Cell} (fb : ∀ v w, base h v w → base h' v w)
+    (fd : ∀ v a d, ops.deref h v = .pair a d → ops.deref h' v = .pair a d)
+    (fe : ∀ v ps, vecElems h v = some ps → vecElems h' v = some ps)
+    (keep : ∀ (l : Nat) (c : Cell), S[l]? = some c → (∀ v, c ≠ .var v) → S'[l]? = some c) :
+    ∀ {v w}, ClosedVR ops vecElems base h S v w → ClosedVR ops vecElems base h' S' v w
+  | _, _, .base hb => .base (fb _ _ hb)
+  | _, _, .pair hs hd h1 h2 =>
+    .pair (keep _ _ hs (by intro v e; cases e)) (fd _ _ _ hd) (ClosedVR.transport fb fd fe keep h1)
+      (ClosedVR.transport fb fd fe keep h2)
+  | _, _, .vec hs hv hall =>
+    .vec (keep _ _ hs (by intro v e; cases e)) (fe _ _ hv) (ClosedVR.transportAll fb fd fe keep hall)
+theorem ClosedVR.transportAll {vecElems : H → VCell → Option (List VCell)} {base : H → VCell → Val → Prop}
+    {h h' : H} {S S' : Array Cell} (fb : ∀ v w, base h v w → base h' v w)
+    (fd : ∀ v a d, ops.deref h v = .pair a d → ops.deref h' v = .pair a d)
+    (fe : ∀ v ps, vecElems h v = some ps → vecElems h' v = some ps)
+    (keep : ∀ (l : Nat) (c : Cell), S[l]? = some c → (∀ v, c ≠ .var v) → S'[l]? = some c) :
+    ∀ {ps xs}, All2 (ClosedVR ops vecElems base h S) ps xs → All2 (ClosedVR ops vecElems base h' S') ps xs
+  | _, _, .nil => .nil
+  | _, _, .cons a t => .cons (ClosedVR.transport fb fd fe keep a) (ClosedVR.transportAll fb fd fe keep t)
+end
+
 /-- `QuoteLaws` hold for the closure of any store-independent base relation (with any heap invariant that
     ignores the store) -/
 theorem closedVR_quoteLaws (vecElems : H → VCell → Option (List VCell)) (base : H → VCell → Val → Prop)
